@@ -159,12 +159,16 @@ func c27(r *sim.R) *sim.Violation {
 		descr   string
 		advance time.Duration
 		pkts    int
+		noOpen  string // interface whose capture source cannot be opened during this update ("" = none)
 	}
 	var steps []step
 	for i := 0; i < nUpd; i++ {
 		c, d := genConfig(t)
 		st := step{cfg: c, descr: d, pkts: t.Draw(6)}
 		st.advance = []time.Duration{0, 0, 400 * time.Millisecond, 2 * time.Second, 299 * time.Second, 301 * time.Second}[t.Draw(6)]
+		if t.Chance(1, 4) {
+			st.noOpen = universe[t.Draw(len(universe))]
+		}
 		steps = append(steps, st)
 	}
 	conv := []conversation{genConversation(t, true), genConversation(t, true)}
@@ -177,8 +181,14 @@ func c27(r *sim.R) *sim.Violation {
 		defer func() { done <- struct{}{} }()
 		w.register("ctl")
 		for i, st := range steps {
-			r.Event("update %d: %s (after %v, %d packets per running interface)", i, st.descr, st.advance, st.pkts)
+			r.Event("update %d: %s (after %v, %d packets per running interface, source that cannot be opened: %q)", i, st.descr, st.advance, st.pkts, st.noOpen)
 			var err error
+			w.mu.Lock()
+			w.openFault, w.openFailed = map[string]bool{}, map[string]bool{}
+			if st.noOpen != "" {
+				w.openFault[st.noOpen] = true
+			}
+			w.mu.Unlock()
 			if i == 0 {
 				mgr, err = gpcapture.InitManager(w.ctx, st.cfg, gpcapture.WithSourceInitFn(w.sourceInit))
 			} else {
@@ -213,9 +223,32 @@ func c27(r *sim.R) *sim.Violation {
 				}
 				continue
 			}
-			if v := w.checkRunning(r, mgr, st.cfg, st.descr, i); v != nil {
+			w.mu.Lock()
+			w.openFault = map[string]bool{}
+			failed := w.openFailed
+			w.mu.Unlock()
+			if v := w.checkRunning(r, mgr, st.cfg, st.descr, i, failed); v != nil {
 				viol = v
 				return
+			}
+			if len(failed) > 0 {
+				// the fault is over: applying the same configuration again (periodic reload) must
+				// bring up the interfaces whose source could not be opened before
+				r.Probe("source_open_failed_then_configuration_reapplied")
+				time.Sleep(2 * time.Second)
+				w.yield("ctl update")
+				if _, _, _, err := mgr.Update(w.ctx, st.cfg); err != nil {
+					viol = r.Report(&sim.Violation{Clause: "update-fails", Signature: "valid configuration", Detail: fmt.Sprintf("update %d (%s) applied again: %v", i, st.descr, err)})
+					if viol != nil {
+						return
+					}
+					continue
+				}
+				if v := w.checkRunning(r, mgr, st.cfg, st.descr+" [applied again after the capture source of "+st.noOpen+" could be opened]", i, nil); v != nil {
+					v.Signature = "after the capture source could be opened again"
+					viol = v
+					return
+				}
 			}
 			// applying the same configuration again must not change anything (overlapping patterns
 			// with different settings must resolve the same way every time)
@@ -317,7 +350,7 @@ func (w *cworld) startedConfigs() string {
 }
 
 // checkRunning compares the running captures with the selection of the latest configuration.
-func (w *cworld) checkRunning(r *sim.R, mgr *gpcapture.Manager, cfg *config.Config, descr string, i int) *sim.Violation {
+func (w *cworld) checkRunning(r *sim.R, mgr *gpcapture.Manager, cfg *config.Config, descr string, i int, openFailed map[string]bool) *sim.Violation {
 	sel := selection(cfg)
 	status := mgr.Status(w.ctx)
 	w.mu.Lock()
@@ -328,6 +361,8 @@ func (w *cworld) checkRunning(r *sim.R, mgr *gpcapture.Manager, cfg *config.Conf
 		_, inStatus := status[iface]
 		want, selected := sel[iface]
 		switch {
+		case selected && !running && openFailed[iface]:
+			// its source could not be opened during this update (injected fault)
 		case selected && (!running || !inStatus):
 			return r.Report(&sim.Violation{Clause: "selected-interface-not-captured", Signature: "after update",
 				Detail: fmt.Sprintf("update %d (%s): %s is selected but not captured (source open: %v, in status: %v)", i, descr, iface, running, inStatus)})
